@@ -253,6 +253,11 @@ class C05(Engine):
             sc = {"kind": "clifault", "fault": "cli_level", "desc": f"prefix_chr({cut})",
                   "files": {"x": {"name": f["name"], "base": b, "splices": [[cut, len(content), ""]], "fault_desc": f"prefix_chr({cut})"}},
                   "tree": {f["name"]: "@x"}, "ops": [{"op": "cli", "argv": opts + [f["name"]]}]}
+            so = r.random()
+            if so < 0.15:
+                sc["ops"][0]["stdout"] = "closed"      # file descriptor 1 closed at start: sys.stdout is None
+            elif so < 0.3:
+                sc["ops"][0]["stdout"] = "strict"
             yield 5_000_000 + i, sc
         # tokenizer alone
         yield from self.lex_scenarios()
@@ -336,6 +341,75 @@ class C05(Engine):
                         yield idx, {"kind": "fault", "fault": "pipeline_deep_nest", "desc": f"nest {u!r}*{n} closed={closed} form={k}",
                                     "files": {"x": {"name": "nest.c", "content": content}}, "ops": [{"op": "api", "file": "x"}]}
                         idx += 1
+
+        # deep and long *structures* (one construct per line, thousands of lines): what recursion over scopes, over the statement
+        # history or over a chain of clauses would not survive
+        idx = 9_500_000
+        for n in ([1200] if q else [300, 1200, 4000]):
+            def tabs(k):
+                return "\t" * min(k, 40)     # the indentation is capped: a file of n*n/2 tabs only measures the lexer's speed
+            chains = {
+                "while_chain": "".join(f"{tabs(k + 1)}while (1)\n" for k in range(n)) + f"{tabs(n + 1)}a++;\n",
+                "if_chain": "".join(f"{tabs(k + 1)}if (a)\n" for k in range(n)) + f"{tabs(n + 1)}a++;\n",
+                "for_chain": "".join(f"{tabs(k + 1)}for (;;)\n" for k in range(n)) + f"{tabs(n + 1)}a++;\n",
+                "mixed_chain": "".join(f"{tabs(k + 1)}{('while (1)', 'if (a)', 'for (;;)')[k % 3]}\n" for k in range(n)) + f"{tabs(n + 1)};\n",
+                "else_if_ladder": "\tif (a == 0)\n\t\ta++;\n" + "".join(f"\telse if (a == {k})\n\t\ta++;\n" for k in range(n)) + "\telse\n\t\ta--;\n",
+                "block_chain": "".join(f"{tabs(k + 1)}{{\n" for k in range(n)) + f"{tabs(n + 1)}a++;\n" + "".join(f"{tabs(n - k)}}}\n" for k in range(n)),
+                "block_chain_open": "".join(f"{tabs(k + 1)}{{\n" for k in range(n)) + f"{tabs(n + 1)}a++;\n",
+                "if_block_chain": "".join(f"{tabs(k + 1)}if (a)\n{tabs(k + 1)}{{\n" for k in range(n)) + f"{tabs(n + 1)}a++;\n"
+                                  + "".join(f"{tabs(n - k)}}}\n" for k in range(n)),
+                "do_chain": "".join(f"{tabs(k + 1)}do\n" for k in range(n)) + f"{tabs(n + 1)}a++;\n" + "".join(f"{tabs(n - k)}while (a);\n" for k in range(n)),
+                "ternary_chain": "\ta = " + "a ? 1 : " * n + "0;\n",
+                "comma_chain": "\ta = 0" + ", a++" * n + ";\n",
+                "arrow_chain": "\ta" + "->next" * n + " = 0;\n",
+                "star_chain": "\t" + "*" * n + "a = 0;\n",
+                "not_chain": "\ta = " + "!" * n + "a;\n",
+                "cast_chain": "\ta = " + "(int)" * n + "a;\n",
+                "call_chain": "\t" + "ft_x(" * n + "a" + ")" * n + ";\n",
+                "label_chain": "".join(f"l{k}:\n" for k in range(n)) + "\ta++;\n",
+                "semicolons": "\t" + ";" * n + "\n",
+                "return_lines": "\treturn (0);\n" * n,
+                "decl_lines": "".join(f"\tint\ta{k};\n" for k in range(n)) + "\n\ta0 = 0;\n",
+            }
+            for name, body in chains.items():
+                if name == "comma_chain":
+                    body = "\ta = 0" + ", a++" * (n // 4) + ";\n"      # quadratic in the code under test: kept conclusive
+                for ext in ("c", "h"):
+                    content = "int\tmain(void)\n{\n" + body + "\treturn (0);\n}\n"
+                    yield idx, {"kind": "fault", "fault": "pipeline_deep_nest", "desc": f"{name}*{n}.{ext}",
+                                "files": {"x": {"name": f"nest.{ext}", "content": content}}, "ops": [{"op": "api", "file": "x"}]}
+                    idx += 1
+            tops = {
+                "ifdef_nest": "".join(f"#{' ' * min(k, 200)}ifdef A{k}\n" for k in range(n)) + "int\tg_a;\n" + "".join(f"#{' ' * min(n - 1 - k, 200)}endif\n" for k in range(n)),
+                "ifdef_open": "".join(f"#ifdef A{k}\n" for k in range(n)) + "int\tg_a;\n",
+                "endif_only": "#endif\n" * n,
+                "else_only": "#ifdef A\n" + "#else\n" * n + "#endif\n",
+                "elif_ladder": "#if A == 0\n" + "".join(f"#elif A == {k}\n" for k in range(n)) + "#endif\n",
+                "struct_nest": "".join(f"{tabs(k)}struct s_{k}\n{tabs(k)}{{\n" for k in range(n)) + f"{tabs(n)}int\ta;\n" + "".join(f"{tabs(n - 1 - k)}}}\tm{k};\n" for k in range(n)),
+                "typedef_lines": "".join(f"typedef int\tt_a{k};\n" for k in range(n)),
+                "define_lines": "".join(f"# define A{k} {k}\n" for k in range(n)),
+                "include_lines": "".join(f"# include \"a{k}.h\"\n" for k in range(n)),
+                "proto_lines": "".join(f"int\tft_a{k}(int a);\n" for k in range(n)),
+                "func_lines": "".join(f"int\tft_a{k}(void)\n{{\n\treturn ({k});\n}}\n\n" for k in range(n)),
+                "enum_big": "enum e_a\n{\n" + "".join(f"\tA{k},\n" for k in range(n)) + "};\n",
+                "init_nest": "int\tg_a[] = " + "{" * n + "0" + "}" * n + ";\n",
+                "comment_lines": "// c\n" * n,
+                "empty_lines": "\n" * n,
+                "ml_comment_big": "/*\n" + "** c\n" * n + "*/\n",
+                "param_list": "int\tft_a(" + ", ".join(f"int a{k}" for k in range(n)) + ");\n",
+                "fnptr_nest": "int\t" + "(*" * n + "g_f" + ")(void)" * n + ";\n",
+                "array_dims": "int\tg_a" + "[2]" * n + ";\n",
+                "string_concat": "char\t*g_s = " + "\"a\" " * n + ";\n",
+            }
+            m = n // 4          # these three are quadratic (or worse) in the code under test: a smaller n keeps the runs conclusive
+            tops["ifdef_nest"] = "".join(f"#{' ' * min(k, 200)}ifdef A{k}\n" for k in range(m)) + "int\tg_a;\n" + "".join(f"#{' ' * min(m - 1 - k, 200)}endif\n" for k in range(m))
+            tops["struct_nest"] = "".join(f"{tabs(k)}struct s_{k}\n{tabs(k)}{{\n" for k in range(m)) + f"{tabs(m)}int\ta;\n" + "".join(f"{tabs(m - 1 - k)}}}\tm{k};\n" for k in range(m))
+            tops["fnptr_nest"] = "int\t" + "(*" * m + "g_f" + ")(void)" * m + ";\n"
+            for name, body in tops.items():
+                for ext in ("c", "h"):
+                    yield idx, {"kind": "fault", "fault": "pipeline_deep_nest", "desc": f"{name}*{n}.{ext}",
+                                "files": {"x": {"name": f"nest.{ext}", "content": body}}, "ops": [{"op": "api", "file": "x"}]}
+                    idx += 1
 
     # ---- oracle ------------------------------------------------------------------------------------
     def judge(self, sc, res, refs):
